@@ -366,11 +366,7 @@ def _py_diff_tabulate(ctx) -> bool | None:
         yy, mm = divmod(i, 12)
         return w.replace(year=yy, month=mm + 1, day=min(w.day, calendar.monthrange(yy, mm + 1)[1])) + _dt.timedelta(days=d, hours=h, minutes=mi, seconds=s_, microseconds=us)
     try:
-        consts = {}
-        for st in m.tree.body:
-            if isinstance(st, ast.ImportFrom) and st.module == "pendulum.constants":
-                for a_ in st.names:
-                    consts[a_.asname or a_.name] = core.const("constants", a_.name)
+        consts = minieval.module_consts(m)
         funcs = {st.name: st for st in m.top() if isinstance(st, ast.FunctionDef)}
         glob = {**consts, "datetime": minieval.Stub(datetime=_dt.datetime, date=_dt.date, tzinfo=_dt.tzinfo, timedelta=_dt.timedelta), "ValueError": ValueError, "math": __import__("math"),
                 "PreciseDiff": minieval.ClassStub(_new=lambda *a, **k: minieval.Stub(_pd=a, _kw=k), _isa=lambda v: False), "zoneinfo": minieval.Stub(ZoneInfo=None), "Timezone": None}
